@@ -4,6 +4,9 @@
    (model thread 1) runs them with the real _dispatch_continuation_pop. */
 #define NITEMS 2
 #include "hist.h"
+#ifndef CW2
+#define CW2 2
+#endif
 #ifndef NITER
 #define NITER 3
 #endif
@@ -50,10 +53,14 @@ void harness(void) {
   Q1 = dispatch_queue_create(0, 0);
   Q0 = dispatch_queue_create(0, IR_NOGLOBAL); IR_ST16(Q0 + P_OFF_dq_width, CW); IR_ST64(Q0 + P_OFF_dq_state, (IR_LD64(Q0 + P_OFF_dq_state) & ~0x003ffe0000000000ull) | ((0x1000ull - CW) << 41));
   IR_ST64(Q0 + P_OFF_do_targetq, Q1);
+#elif TARGET == 4   /* a concurrent queue of width CW whose target is a NARROWER concurrent queue (width CW2): the lower level grants only part of what the upper one reserved - the excess must be given back above */
+  Q1 = dispatch_queue_create(0, IR_NOGLOBAL); IR_ST16(Q1 + P_OFF_dq_width, CW2); IR_ST64(Q1 + P_OFF_dq_state, (IR_LD64(Q1 + P_OFF_dq_state) & ~0x003ffe0000000000ull) | ((0x1000ull - CW2) << 41));
+  Q0 = dispatch_queue_create(0, IR_NOGLOBAL); IR_ST16(Q0 + P_OFF_dq_width, CW); IR_ST64(Q0 + P_OFF_dq_state, (IR_LD64(Q0 + P_OFF_dq_state) & ~0x003ffe0000000000ull) | ((0x1000ull - CW) << 41));
+  IR_ST64(Q0 + P_OFF_do_targetq, Q1);
 #else
   Q0 = dispatch_queue_create(0, IR_NOGLOBAL); IR_ST16(Q0 + P_OFF_dq_width, CW); IR_ST64(Q0 + P_OFF_dq_state, (IR_LD64(Q0 + P_OFF_dq_state) & ~0x003ffe0000000000ull) | ((0x1000ull - CW) << 41));
 #endif
-  u64 st0 = (TARGET != 0) ? IR_LD64(Q0 + P_OFF_dq_state) : 0, st1 = (TARGET == 3) ? IR_LD64(Q1 + P_OFF_dq_state) : 0;
+  u64 st0 = (TARGET != 0) ? IR_LD64(Q0 + P_OFF_dq_state) : 0, st1 = (TARGET == 3 || TARGET == 4) ? IR_LD64(Q1 + P_OFF_dq_state) : 0;
   dispatch_apply_f(NITER, Q0, 0xABCD, FN_WORK);
   /* --- at the moment dispatch_apply returns --- */
   ASSERT(completed == NITER, "RETURNS-AFTER-ALL: dispatch_apply returns only after all n invocations have finished");
@@ -65,8 +72,8 @@ void harness(void) {
   for (int r = 0; r < 6 && npend > 0; r++) run_one_worker(0);
   ASSERT(npend == 0, "harness bound: helpers still pending");
   for (int i = 0; i < MAXI; i++) ASSERT(calls[i] == (i < NITER ? 1 : 0), "EVERY-INDEX-ONCE: late helpers do not invoke anything again");
-#if TARGET == 3
-  ASSERT(IR_LD64(Q1 + P_OFF_dq_state) == st1, "WIDTH: the serial target queue is left as it was");
+#if TARGET == 3 || TARGET == 4
+  ASSERT(IR_LD64(Q1 + P_OFF_dq_state) == st1, "WIDTH: the target queue below is left as it was");
 #endif
 #if TARGET != 0
   ASSERT(IR_LD64(Q0 + P_OFF_dq_state) == st0, "WIDTH: the reader width reserved on the queue has been given back (state word as before)");
